@@ -59,6 +59,8 @@ func (d *drv) play(o op) {
 		d.restart()
 	case "peers":
 		d.setPeers(o.Up)
+	case "peerlag":
+		d.setPeerLag(o.N)
 	case "hc":
 		d.hc(o.R, o.Mode)
 	case "hccycle":
@@ -66,7 +68,11 @@ func (d *drv) play(o op) {
 	case "losefile":
 		d.loseFile(o.B)
 	case "read":
-		d.read(o.Kind, o.Arg)
+		if o.Kind == "any" {
+			d.randomRead()
+		} else {
+			d.read(o.Kind, o.Arg)
+		}
 	default:
 		rec.Fatal("unknown op %q", o.Op)
 	}
@@ -214,7 +220,20 @@ func (d *drv) setPeers(up bool) {
 		d.peerUp[i] = up
 	}
 	d.peerMu.Unlock()
-	d.rc.Emit(rec.M{"ev": "Peers", "up": up}, fmt.Sprintf("peers/%v", up), false)
+	d.rc.Emit(rec.M{"ev": "Peers", "up": up, "lag": d.peerLag, "peer_lfb": d.peerLfb}, fmt.Sprintf("peers/%v", up), false)
+}
+
+// setPeerLag: the other sharders have finalized up to `lag` rounds less than the miners produced.
+func (d *drv) setPeerLag(lag int) {
+	d.peerMu.Lock()
+	d.peerLag = int64(lag)
+	d.peerLfb = int64(len(d.canon)-1) - d.peerLag
+	if d.peerLfb < 0 {
+		d.peerLfb = 0
+	}
+	plfb := d.peerLfb
+	d.peerMu.Unlock()
+	d.rc.Emit(rec.M{"ev": "Peers", "up": d.peerUp[1], "lag": lag, "peer_lfb": plfb}, fmt.Sprintf("peerlag/%d", min(lag, 2)), false)
 }
 
 func scanMode(m string) sharder.HealthCheckScan {
@@ -336,6 +355,13 @@ func (d *drv) read(kind, arg string) {
 			out, err = sharder.RoundBlockRequestHandler(ctx, get("/v1/_s2s/block/get", url.Values{"round": {arg}}))
 		case "s2s_summary": // arg = block name
 			out, err = sharder.BlockSummaryRequestHandler(ctx, get("/v1/_s2s/blocksummary/get", url.Values{"hash": {d.hashOf(arg)}}))
+		case "afterfetch": // arg = block name: the hook the LFB-ticket block fetcher calls for a fetched block
+			if b := d.blocks[arg]; b != nil {
+				err = d.sc.AfterFetch(ctx, b)
+				out = b
+			} else {
+				err = fmt.Errorf("no such block")
+			}
 		case "confirm": // arg = txn name
 			out, err = sharder.TransactionConfirmationHandler(ctx, get("/v1/transaction/get/confirmation", url.Values{"hash": {d.txnHash(arg)}}))
 		default:
@@ -483,7 +509,11 @@ func (d *drv) randomRead() {
 	case 6:
 		d.read("s2s_round", fmt.Sprint(d.r.Intn(d.maxR+1)))
 	case 7:
-		d.read("mb", fmt.Sprint(1+d.r.Intn(2)))
+		if d.r.Intn(3) == 0 {
+			d.read("afterfetch", known[d.r.Intn(len(known))])
+		} else {
+			d.read("mb", fmt.Sprint(1+d.r.Intn(2)))
+		}
 	default:
 		n := known[d.r.Intn(len(known))]
 		if k := len(d.blocks[n].Txns); k > 0 {
@@ -579,8 +609,10 @@ func (d *drv) random(id int, a common.Args) {
 			}
 		case x < 66 && faulty >= 1:
 			d.restart()
-		case x < 69 && faulty >= 2:
+		case x < 68 && faulty >= 2:
 			d.setPeers(d.r.Intn(3) > 0)
+		case x < 69 && faulty >= 2:
+			d.setPeerLag(d.r.Intn(4))
 		case x < 71 && faulty >= 2:
 			d.loseFile(d.order[d.r.Intn(len(d.order))])
 		case x < 78 && faulty >= 2:
